@@ -6,7 +6,7 @@ including ties is explored and the resulting intervals are checked against the c
 exact k-1 overlap, lengths in [k, 2k-p], minimizer = the p-mer at the reported position, inside every k-mer of the
 interval, minimal there, and no interval ends early); every narrowing `as` cast in scan is dominated by an assertion
 bounding it; scores are never truncated before comparison."""
-from .. import dt_msp
+from .. import dt_msp, structural
 from . import common
 
 ASSUMPTIONS = ["window sizes are bounded (len <= 6 quick, <= 8 thorough); the loop body is uniform in the position, the general case rests on that uniformity",
@@ -22,3 +22,5 @@ def run(F, rep):
     rep.run(dt_msp.score_closure_tables, F, rep, "C07.7")
     # the scanner takes its first p-mer of every window with get_kmer on the read, which may be a (reverse-complemented) view
     rep.run(common.run_store_kmer_lemmas, F, rep, "C07.6")
+    # the partition of a read must not depend on earlier calls: thread-local caches must be keyed by everything their content depends on
+    rep.run(structural.cache_key_rule, F, rep, "C07.7", ["msp::msp_sequence", "msp::simple_scan"] + [k for k in F.fns if k.startswith("msp::Scanner") and k.endswith("::scan")])
